@@ -41,6 +41,31 @@ mutual
     | .cons t s rest, tag, v => if t = tag then Fits X s v else FitsVariant X rest tag v
 end
 
+/-! ### unfolding `Fits` (general forms; used to exhibit concrete values) -/
+
+theorem fits_struct (X : Ext) (fs : Flds) (vs : List FVal) : Fits X (.struct fs) (.struct vs) = FitsFields X fs vs := by
+  simp only [Fits]
+
+theorem fits_str (X : Ext) (b : Bytes) : Fits X .str (.str b) = (utf8Valid (escape b) = true) := by simp only [Fits]
+
+theorem fitsFields_nil (X : Ext) : FitsFields X .nil [] = True := by simp only [FitsFields]
+
+theorem fitsFields_one (X : Ext) (t : Bytes) (p : Pres) (s : Sch) (r : Flds) (v : Val) (fvs : List FVal) :
+    FitsFields X (.cons t p .single s r) (.one v :: fvs) = (Fits X s v ∧ FitsFields X r fvs) := by
+  simp only [FitsFields]
+
+theorem fitsFields_absent (X : Ext) (t : Bytes) (p : Pres) (sh : Shape) (s : Sch) (r : Flds) (fvs : List FVal) :
+    FitsFields X (.cons t p sh s r) (.absent :: fvs) = (p = .opt ∧ FitsFields X r fvs) := by
+  cases sh <;> simp only [FitsFields]
+
+theorem fitsFields_wrapped (X : Ext) (t m : Bytes) (p : Pres) (s : Sch) (r : Flds) (vs : List Val) (fvs : List FVal) :
+    FitsFields X (.cons t p (.wrapped m) s r) (.many vs :: fvs) = ((∀ v ∈ vs, Fits X s v) ∧ FitsFields X r fvs) := by
+  simp only [FitsFields]
+
+theorem fitsFields_flat (X : Ext) (t : Bytes) (p : Pres) (s : Sch) (r : Flds) (vs : List Val) (fvs : List FVal) :
+    FitsFields X (.cons t p .flat s r) (.many vs :: fvs) = ((vs ≠ [] ∧ ∀ v ∈ vs, Fits X s v) ∧ FitsFields X r fvs) := by
+  simp only [FitsFields]
+
 /-! ### helpers -/
 
 def Flds.append : Flds → Flds → Flds
